@@ -135,7 +135,7 @@ theorem bicgstab_exact_precond_right (prm : BiCGStab.Params K) (hside : prm.psid
     BiCGStab.exact_final prm hside hca ip sqrt A P hAP ws f x0 nf hne hmax hstart hz heps
   refine ⟨st.x, st.w, ?_, ?_⟩
   · rw [BiCGStab.solve, Run.toExcept_ok, BiCGStab.run_go _ _ _ _ _ _ _ _ _ nf hp, hfin]
-    simp only [h1, h2, zero_div]
+    simp only [BiCGStab.repRes_of_not_ca prm ip sqrt st hca, h1, h2, zero_div]
   · rw [h4, ← paired_update_inv f A hA 1 (P (residual f A x0)) x0 x0 (by rw [hP]),
       hAP _ _ (residual_size' f A x0), axpby_cancel, residual_size']
 
